@@ -1123,7 +1123,8 @@ impl Parser {
                 }
             },
             TokenKind::FloatLit(s) => match s.parse::<f64>() {
-                Ok(_) => {
+                // a magnitude beyond the largest finite float parses as infinity
+                Ok(f) if f.is_finite() => {
                     self.consume_token();
                     Expr {
                         kind: Rc::new(ExprKind::Float(s)),
@@ -1131,7 +1132,7 @@ impl Parser {
                         id: NodeId::new(),
                     }
                 }
-                Err(_) => {
+                _ => {
                     return Err(Error::ProblematicToken(
                         "Could not parse float literal. Out of range?".into(),
                         self.current_token_location(),
@@ -1162,7 +1163,7 @@ impl Parser {
                     TokenKind::FloatLit(s) => {
                         let f_string = "-".to_string() + &s;
                         match f_string.parse::<f64>() {
-                            Ok(_) => {
+                            Ok(f) if f.is_finite() => {
                                 self.consume_token();
                                 Expr {
                                     kind: Rc::new(ExprKind::Float(f_string)),
@@ -1170,7 +1171,7 @@ impl Parser {
                                     id: NodeId::new(),
                                 }
                             }
-                            Err(_) => {
+                            _ => {
                                 return Err(Error::ProblematicToken(
                                     "Could not parse negated float literal. Out of range?".into(),
                                     self.current_token_location(),
@@ -1420,7 +1421,8 @@ impl Parser {
                 }
             },
             TokenKind::FloatLit(s) => match s.parse::<f64>() {
-                Ok(_) => {
+                // a magnitude beyond the largest finite float parses as infinity
+                Ok(f) if f.is_finite() => {
                     self.consume_token();
                     Pat {
                         kind: Rc::new(PatKind::Float(s)),
@@ -1428,7 +1430,7 @@ impl Parser {
                         id: NodeId::new(),
                     }
                 }
-                Err(_) => {
+                _ => {
                     return Err(Error::ProblematicToken(
                         "Could not parse float literal. Out of range?".into(),
                         self.current_token_location(),
